@@ -30,6 +30,23 @@ def norm(node: ast.AST) -> str:
         return '<unparse failed>'
 
 
+def core_stmts(body: List[ast.stmt]) -> List[ast.stmt]:
+    """The statements of a block that do something: docstrings, `pass`, assertions and logger calls are left out
+    (positional clauses -- "the first statement is the guard" -- must not depend on them)."""
+    out = []
+    for st in body:
+        if isinstance(st, (ast.Pass, ast.Assert)):
+            continue
+        if isinstance(st, ast.Expr) and isinstance(st.value, ast.Constant):
+            continue
+        if isinstance(st, ast.Expr) and isinstance(st.value, ast.Call) and isinstance(st.value.func, ast.Attribute) \
+                and isinstance(st.value.func.value, ast.Name) and st.value.func.value.id in ('logger', 'logging', 'log') \
+                and st.value.func.attr in ('debug', 'info', 'warning', 'warn', 'error', 'exception', 'log'):
+            continue
+        out.append(st)
+    return out
+
+
 class Module:
     def __init__(self, name: str, path: Path, relpath: str, src: str):
         self.name = name
@@ -44,16 +61,19 @@ class Module:
         if not os.environ.get('VERIF_NO_NORMALISE'):
             from .normalise import normalise
             normalise(self.tree)        # canonical spelling (docstrings, constant side of ==, if-expressions, temporaries)
-        for parent in ast.walk(self.tree):
-            for child in ast.iter_child_nodes(parent):
-                child._parent = parent  # type: ignore[attr-defined]
-        self.tree._parent = None  # type: ignore[attr-defined]
+        self.link_parents()
         self.imports: Dict[str, Tuple[str, Optional[str]]] = {}   # local name -> (module, attr or None)
         self.classes: Dict[str, 'ClassInfo'] = {}
         self.functions: Dict[str, 'FuncInfo'] = {}                # module-level functions
         self.assigns: Dict[str, List[ast.AST]] = {}               # module-level name -> value nodes
         self.standalone_ranges: List[Tuple[int, int]] = []        # 1-based inclusive line ranges
         self._scan_standalone()
+
+    def link_parents(self):
+        for parent in ast.walk(self.tree):
+            for child in ast.iter_child_nodes(parent):
+                child._parent = parent  # type: ignore[attr-defined]
+        self.tree._parent = None  # type: ignore[attr-defined]
 
     def _scan_standalone(self):
         start = None
@@ -331,6 +351,13 @@ class Repo:
             mod.is_package = path.name == '__init__.py'   # type: ignore[attr-defined]
             self.modules[name] = mod
             self.files.append(rel)
+        if not os.environ.get('VERIF_NO_NORMALISE'):
+            # whole-package canonicalisation (needs every signature): keyword arguments, helpers the rules do not know
+            from .normalise import normalise_package
+            normalise_package({m.name: m.tree for m in self.modules.values()})
+            for mod in self.modules.values():
+                mod.link_parents()
+        for mod in self.modules.values():
             self._collect(mod, mod.tree.body, None, None)
 
     def _collect(self, mod: Module, body, cls: Optional[ClassInfo], func: Optional[FuncInfo]):
